@@ -115,10 +115,76 @@ C12_2D(tk) ==
   [ zscores |-> SSqrt2(zm),
     pvals   |-> TailNormal2(zm) ]
 
+C14_2D(tk) ==
+  [ rows_scale_mean           |-> ScaleOut(tk, DimR, RE, ScaleMean, FALSE),
+    rows_scale_median         |-> ScaleOut(tk, DimR, RE, ScaleMedian, FALSE),
+    rows_scale_mean_stddev    |-> ScaleOut(tk, DimR, RE, ScaleVar, TRUE),
+    rows_scale_mean_stderr    |-> ScaleOut(tk, DimR, RE, ScaleSE2, TRUE),
+    columns_scale_mean        |-> ScaleOut(tk, DimC, CE, ScaleMean, FALSE),
+    columns_scale_median      |-> ScaleOut(tk, DimC, CE, ScaleMedian, FALSE),
+    columns_scale_mean_stddev |-> ScaleOut(tk, DimC, CE, ScaleVar, TRUE),
+    columns_scale_mean_stderr |-> ScaleOut(tk, DimC, CE, ScaleSE2, TRUE),
+    rows_scale_mean_margin      |-> ScaleMarginMean(tk, DimC),
+    columns_scale_mean_margin   |-> ScaleMarginMean(tk, DimR),
+    rows_scale_median_margin    |-> ScaleMarginMedian(tk, DimC),
+    columns_scale_median_margin |-> ScaleMarginMedian(tk, DimR) ]
+C14_1D(tk) ==
+  [ scale_mean    |-> IF SNone(tk) THEN NoneV ELSE Num0(Div(R(SScaleS1(tk)), R(SScaleN(tk)))),
+    scale_median  |-> IF SNone(tk) THEN NoneV ELSE Num0(MedianOf(DimR, SScaleCnt(tk))),
+    scale_std_dev |-> IF SNone(tk) THEN NoneV
+                      ELSE [k |-> "sqrt", nd |-> 0, v |-> SScaleVarR(tk), scale |-> One],
+    scale_std_err |-> IF SNone(tk) THEN NoneV
+                      ELSE [k |-> "sqrt", nd |-> 0, v |-> Div(SScaleVarR(tk), R(SScaleN(tk))),
+                            scale |-> One] ]
+
+C15_2D(tk) ==
+  [ row_share_sum    |-> Num2(ShareM("row", tk, RE, CE)),
+    column_share_sum |-> Num2(ShareM("col", tk, RE, CE)),
+    total_share_sum  |-> Num2(ShareM("table", tk, RE, CE)),
+    sums             |-> Num2(YStatM("sum", tk, RE, CE)) ]
+C15_1D(tk) ==
+  [ share_sum |-> Num1(SShareV(tk, RE)),
+    sums      |-> Num1(SYStatV("sum", tk, RE)) ]
+C16_2D(tk) ==
+  [ column_index |-> Num2(ColIndexM(tk, RE, CE)) ]
+C17_2D(tk) ==
+  [ population_counts     |-> Num2(PopCountM(tk, RE, CE)),
+    population_counts_moe |-> SqrtS2(PopSE2M(tk, RE, CE), PopScale),
+    population_fraction   |-> Num0(Fraction) ]
+C17_1D(tk) ==
+  [ population_counts     |-> Num1(SPopCountV(tk, RE)),
+    population_counts_moe |-> SqrtS1(SPopSE2V(tk, RE), PopScale),
+    population_fraction   |-> Num0(Fraction) ]
+
 C11_1D(tk) ==
   [ table_proportion_stddevs |-> Sqrt1(SVarV(tk, RE)),
     table_proportion_stderrs |-> Sqrt1(SSE2V(tk, RE)),
     table_proportion_moes    |-> SqrtS1(SSE2V(tk, RE), Z975) ]
+
+\* 0-D response (a numeric summary without dimensions): the single "nub" partition
+NubPart ==
+  [ means            |-> Num0(CellMean(<< >>)),
+    unweighted_count |-> Num0(R(IF ValidCounts THEN CellNV(<< >>) ELSE CellN(CountAxes, << >>))) ]
+
+\* the cube-level arrays: the wire tensors restricted to valid elements, flattened
+\* The cube-level arrays come in the order of the reported dimensions: the numeric
+\* array axis, stored innermost, is reported (and indexed) first.
+LogicalIdxAll ==
+  IF HasNumArr
+  THEN FlattenSeq([i \in 1..Dims[NumArrDim].n |->
+                    [t \in 1..Len(IdxCount) |-> IdxCount[t] \o <<i>>]])
+  ELSE IdxAll
+
+CubeLevel ==
+  LET cntIdx == IF HasY /\ ValidCounts THEN ValidOnly(Axes, LogicalIdxAll) ELSE ValidOnly(CountAxes, IdxCount)
+      W(i) == IF HasY /\ ValidCounts THEN (IF Weighted THEN CellWV(i) ELSE CellNV(i))
+              ELSE (IF Weighted THEN CellW(CountAxes, i) ELSE CellN(CountAxes, i))
+      U(i) == IF HasY /\ ValidCounts THEN CellNV(i) ELSE CellN(CountAxes, i)
+  IN  [ counts            |-> Num1([t \in 1..Len(cntIdx) |-> R(W(cntIdx[t]))]),
+        unweighted_counts |-> Num1([t \in 1..Len(cntIdx) |-> R(U(cntIdx[t]))]) ]
+CubeLevelY ==
+  LET yIdx == ValidOnly(Axes, LogicalIdxAll) IN
+  [ means |-> Num1([t \in 1..Len(yIdx) |-> CellMean(yIdx[t])]) ]
 
 Part(tk) ==
   CASE Family = "c01" /\ ND = 1 -> IF HasY THEN C01_1D(tk) @@ C01_1D_Y(tk) ELSE C01_1D(tk)
@@ -130,6 +196,13 @@ Part(tk) ==
     [] Family = "c11" /\ ND = 1 -> C11_1D(tk)
     [] Family = "c11" /\ ND > 1 -> C11_2D(tk)
     [] Family = "c12" /\ ND > 1 -> C12_2D(tk)
+    [] Family = "c14" /\ ND = 1 -> C14_1D(tk)
+    [] Family = "c14" /\ ND > 1 -> C14_2D(tk)
+    [] Family = "c15" /\ ND = 1 -> C15_1D(tk)
+    [] Family = "c15" /\ ND > 1 -> C15_2D(tk)
+    [] Family = "c16" /\ ND > 1 -> C16_2D(tk)
+    [] Family = "c17" /\ ND = 1 -> C17_1D(tk)
+    [] Family = "c17" /\ ND > 1 -> C17_2D(tk)
     [] Family = "c04" /\ ND = 1 -> IF HasY THEN C04_1D(tk) @@ C01_1D_Y(tk) ELSE C04_1D(tk)
     [] Family = "c04" /\ ND > 1 -> IF HasY THEN C04_2D(tk) @@ C01_2D_Y(tk) ELSE C04_2D(tk)
 
@@ -138,7 +211,7 @@ Aux ==
   [ rows  |-> RowOrder, cols |-> ColOrder,
     rdiff |-> [i \in 1..Len(RE) |-> IsDiff(RE[i])],
     cdiff |-> [j \in 1..Len(CE) |-> IsDiff(CE[j])],
-    rsubs |-> LiveIdx(DimR, InsSource(RowDC)),
+    rsubs |-> IF ND >= 1 THEN LiveIdx(DimR, InsSource(RowDC)) ELSE << >>,
     csubs |-> IF ND >= 2 THEN LiveIdx(DimC, InsSource(ColDC)) ELSE << >> ]
 
 Out ==
@@ -148,7 +221,9 @@ Out ==
     flat  |-> Flat,
     flaty |-> IF HasY THEN FlatY ELSE [none |-> 0],
     aux   |-> Aux,
-    parts |-> [t \in 1..NParts |-> Part(TableEls[t])] ]
+    cube  |-> IF Family = "c01" THEN (IF HasY THEN CubeLevel @@ CubeLevelY ELSE CubeLevel)
+              ELSE [none |-> 0],
+    parts |-> IF ND = 0 THEN << NubPart >> ELSE [t \in 1..NParts |-> Part(TableEls[t])] ]
 
 EmitInv == PrintT(ToJson(Out))
 =============================================================================
